@@ -94,11 +94,22 @@ func runC04(c *Ctx) {
 		}
 	}
 	r.Floor("C04.selfsync", 4)
+	c.rulePanicSites("C04.selfsync")
 
 	// structural premise of the delivery clause: a registered pipeline is never absent from the
 	// sync.Map between its registration and its removal — an overwrite is one Store
 	c.ruleSingleStore("C04.swap")
 	c.ruleOneSection("C04.section")
+	// "a Send that starts after a pipeline's registration returned delivers to that pipeline": what a
+	// successful registration stores is the chain linked by THIS call from the nodes registered now
+	// (the commit rule of C05 / C07)
+	nObl := len(c.R.Obls)
+	c.ruleCommit()
+	for i := nObl; i < len(c.R.Obls); i++ {
+		if strings.HasPrefix(c.R.Obls[i].Rule, "C05.commit") || c.R.Obls[i].Rule == "C07.swap" {
+			c.R.Obls[i].Rule = "C04.commit"
+		}
+	}
 	c.ruleGoCapturedWrites("C04.goroutines")
 	c.rulePipelineCopies("C04.copy")
 
